@@ -392,7 +392,7 @@ def prove_cmp(facts: Facts, a: Any, op: ast.cmpop, b: Any) -> Verdict:
         integral = all(s in facts.ints for s in goal.syms())
         if entails_ge0(facts, goal, strict=strict, integer=integral):
             return Verdict(HOLDS)
-        viol = goal if not strict else goal - Lin.c(1) if integral else goal
+        viol = goal if not strict else goal - Lin.c(1) if integral else goal - Lin.c(Fraction(1, 1000))
         exact = facts.is_exact(goal)
         if exact:
             m = find_model(facts, viol)
@@ -562,12 +562,23 @@ def evaluate(env: Env, e: ast.AST) -> Any:
         return Opaque("ifexp with unknown test")
     if isinstance(e, ast.Tuple):
         return Tup([evaluate(env, x) for x in e.elts])
+    if isinstance(e, ast.List):
+        return SeqV(Lin.c(len(e.elts)), evaluate(env, e.elts[0]) if e.elts else Opaque("elem"), "list")
     if isinstance(e, ast.Subscript):
         for h in env.sub_hooks:
             r = h(env, e)
             if r is not None:
                 return r
         v = evaluate(env, e.value)
+        if isinstance(v, SeqV) and isinstance(e.slice, ast.Slice) and e.slice.step is None and isinstance(v.length, Lin):
+            lo_ = evaluate(env, e.slice.lower) if e.slice.lower is not None else Lin.c(0)
+            hi_ = evaluate(env, e.slice.upper) if e.slice.upper is not None else v.length
+            if isinstance(lo_, Lin) and isinstance(hi_, Lin) and entails_ge0(f, lo_) and entails_ge0(f, hi_ - lo_) \
+                    and entails_ge0(f, v.length - hi_):
+                return SeqV(hi_ - lo_, v.elem, v.kind)
+            return Opaque("slice of a sequence with bounds not provably inside it")
+        if isinstance(v, SeqV) and not isinstance(e.slice, ast.Slice):
+            return v.elem
         if isinstance(v, Tup) and isinstance(e.slice, ast.Constant) and isinstance(e.slice.value, int):
             try:
                 return v.items[e.slice.value]
@@ -576,6 +587,11 @@ def evaluate(env: Env, e: ast.AST) -> Any:
         p = None
         if isinstance(e.slice, ast.Constant):
             base = attr_path(e.value)
+            if base is not None and base.endswith(".shape") and e.slice.value == 0:
+                # numpy: len(M) == M.shape[0]
+                s_ = env.symbol(f"len({base[:-len('.shape')]})")
+                f.add_ge(s_, Lin.c(0))
+                return s_
             if base is not None:
                 p = f"{base}[{e.slice.value!r}]"
         if p is not None:
@@ -650,10 +666,29 @@ def truth(env: Env, e: ast.AST) -> B3:
         if any(v is True for v in vs):
             return B3(True)
         return B3(False if all(v is False for v in vs) else None)
+    if isinstance(e, ast.Call) and isinstance(e.func, ast.Name) and e.func.id in ("all", "any") and len(e.args) == 1 \
+            and isinstance(e.args[0], (ast.GeneratorExp, ast.ListComp)) and len(e.args[0].generators) == 1:
+        g = e.args[0].generators[0]
+        seq = evaluate(env, g.iter)
+        if isinstance(seq, SeqV) and isinstance(g.target, ast.Name) and not g.ifs:
+            sub = env.copy()
+            sub.vars[g.target.id] = seq.elem
+            r = truth(sub, e.args[0].elt)
+            if e.func.id == "all":
+                return B3(True if r.v is True else None)
+            return B3(None)
+        return B3(None)
     if isinstance(e, ast.Compare):
         left = evaluate(env, e.left)
         res: Optional[bool] = True
         for op, rhs in zip(e.ops, e.comparators):
+            if isinstance(op, (ast.In, ast.NotIn)):
+                pth = attr_path(rhs)
+                isin = isinstance(left, Member) and pth is not None and left.of == pth
+                if isinstance(op, ast.In) and isin:
+                    left = evaluate(env, rhs)
+                    continue
+                return B3(False if (isinstance(op, ast.NotIn) and isin) else None)
             right = evaluate(env, rhs)
             v = prove_cmp(env.facts, left, op, right)
             if v.status == HOLDS:
@@ -728,7 +763,7 @@ class Outcome:
     node: Any = None
 
 
-def interp(body: list[ast.stmt], env: Env, max_paths: int = 128) -> list[Outcome]:
+def interp(body: list[ast.stmt], env: Env, max_paths: int = 128, for_hook=None) -> list[Outcome]:
     """Interpret a loop-free statement list; forks on if-statements and on if-expressions whose test is unknown
     (when they are the whole right-hand side of an assignment / return).  Loops and other unsupported statements
     end the path with kind 'unsupported' (the rule decides what to do with it)."""
@@ -812,6 +847,8 @@ def interp(body: list[ast.stmt], env: Env, max_paths: int = 128) -> list[Outcome
                 evaluate(e, st.value)  # for call-model side effects (precondition obligations)
             go(rest, e, conds)
         elif isinstance(st, (ast.Pass, ast.Import, ast.ImportFrom, ast.FunctionDef, ast.Global, ast.Nonlocal)):
+            go(rest, e, conds)
+        elif isinstance(st, (ast.For, ast.AsyncFor)) and for_hook is not None and for_hook(e, st):
             go(rest, e, conds)
         else:
             out.append(Outcome(e, None, conds, "unsupported", st))
